@@ -1,7 +1,7 @@
 (* Proofs/ConformalP.v -- theorems about the building blocks of lapy/conformal.py (C18) over R. *)
 From Coq Require Import List Arith Bool PeanoNat ZArith Lia Reals Lra.
 From LaPyV Require Import Base.Scalar Base.Vec3 Base.ListAux Base.Sparse Model.TetMesh Model.TriaAdj Model.Conformal
-  Proofs.SparseP Proofs.TetMeshP Proofs.FemTriaP Proofs.TriaAdjP Proofs.TriaGeomP Proofs.DiffGeoP Proofs.PoissonP Proofs.EigsP.
+  Proofs.SparseP Proofs.TetMeshP Proofs.FemTriaP Proofs.TriaAdjP Proofs.TriaGeomP Proofs.DiffGeoP Proofs.PoissonP Proofs.EigsP Proofs.InvarianceP.
 Import ListNotations.
 Open Scope R_scope.
 
@@ -205,3 +205,121 @@ Proof.
 Qed.
 Theorem scm_final_unit mapping : Forall (fun p => dotR p p = 1) (scm_final Rops mapping).
 Proof. unfold scm_final. apply Forall_forall. intros p Hp. apply in_map_iff in Hp. destruct Hp as (w & <- & _). apply inverse_south_on_sphere. Qed.
+
+(* ---- north-pole stage: the big triangle is laid out in the plane similar to itself, and the solver must reproduce it *)
+Theorem bigtri_layout_similar (p0 p1 p2 : V3) :
+  let a := subR p1 p0 in let b := subR p2 p0 in
+  dotR a a <> 0 -> dotR b b <> 0 ->
+  bigtri_third Rops p0 p1 p2 = (Rabs (dotR a b) / dotR a a, sqrt (dotR (crossR a b) (crossR a b)) / dotR a a).
+Proof.
+  intros a b Ha Hb. unfold bigtri_third. fold a b. unfold norm, norm2. cbn [sqrtK add sub mul div one Rops].
+  set (A := dotR a a) in *. set (B := dotR b b) in *. set (X := dotR (crossR a b) (crossR a b)).
+  assert (PA : 0 < A) by (pose proof (dot_self_nonneg a); unfold A in *; lra).
+  assert (PB : 0 < B) by (pose proof (dot_self_nonneg b); unfold B in *; lra).
+  assert (PX : 0 <= X) by apply dot_self_nonneg.
+  assert (SA : sqrt A * sqrt A = A) by (apply sqrt_sqrt; lra).
+  assert (SB : sqrt B * sqrt B = B) by (apply sqrt_sqrt; lra).
+  assert (SX : sqrt X * sqrt X = X) by (apply sqrt_sqrt; lra).
+  assert (sA : 0 < sqrt A) by (apply sqrt_lt_R0; exact PA). assert (sB : 0 < sqrt B) by (apply sqrt_lt_R0; exact PB).
+  assert (Y : sqrt B * (sqrt X / (sqrt A * sqrt B)) * (1 / sqrt A) = sqrt X / A).
+  { rewrite <- SA at 3. field. split; lra. }
+  rewrite Y. f_equal.
+  assert (L : X = A * B - dotR a b * dotR a b) by (unfold X, A, B; apply lagrange).
+  replace (sqrt B * sqrt B * (1 / sqrt A * (1 / sqrt A)) - sqrt X / A * (sqrt X / A)) with ((dotR a b / A) * (dotR a b / A)).
+  - change ((dotR a b / A) * (dotR a b / A)) with (Rsqr (dotR a b / A)). rewrite sqrt_Rsqr_abs. unfold Rdiv. rewrite Rabs_mult, (Rabs_right (/ A)); [reflexivity|]. apply Rle_ge, Rlt_le, Rinv_0_lt_compat. exact PA.
+  - assert (iA : 1 / sqrt A * (1 / sqrt A) = / A).
+    { replace (/ A) with (/ (sqrt A * sqrt A)) by (rewrite SA; reflexivity). field. lra. }
+    assert (iX : sqrt X / A * (sqrt X / A) = X / (A * A)).
+    { replace (X / (A * A)) with (sqrt X * sqrt X / (A * A)) by (rewrite SX; reflexivity). field. lra. }
+    rewrite SB, iA, iX, L. field. lra.
+Qed.
+
+
+Theorem north_corners_pinned csolve (HC : csolve_contract csolve) (A : coo R) n p0 p1 p2 (third : CR) x :
+  NoDup [p0; p1; p2] -> (p0 < n)%nat -> (p1 < n)%nat -> (p2 < n)%nat ->
+  csolve n (north_system Rops A [p0; p1; p2]) (north_rhs Rops n p0 p1 p2 third) = Ok x ->
+  nth p0 x (0, 0) = (0, 0) /\ nth p1 x (0, 0) = (1, 0) /\ nth p2 x (0, 0) = third.
+Proof.
+  intros ND H0 H1 H2 H. apply HC in H. destruct H as [Hlen H].
+  set (fixed := [p0; p1; p2]) in *.
+  assert (Hrow : forall l y, In l fixed -> mv (north_system Rops A fixed) y l = y l).
+  { intros l y Hl. unfold north_system. rewrite mv_app, mv_filter_rows.
+    - replace (map (fun i : nat => (i, i, one Rops)) fixed) with (map (fun p : nat * CR => (fst p, fst p, 1)) (map (fun i => (i, (0, 0))) fixed))
+        by (rewrite map_map; reflexivity).
+      rewrite mv_unit_rows; [ring| rewrite map_map; cbn [fst]; rewrite map_id; exact ND | rewrite map_map; cbn [fst]; rewrite map_id; exact Hl].
+    - intros j a. assert (E : memn l fixed = true) by (unfold memn; apply existsb_exists; exists l; split; [exact Hl|apply Nat.eqb_refl]).
+      rewrite E. reflexivity. }
+  assert (Hb : forall l, (l < n)%nat -> nth l (north_rhs Rops n p0 p1 p2 third) (0, 0)
+                = if Nat.eqb l p2 then third else if Nat.eqb l p1 then (1, 0) else (0, 0)).
+  { intros l Hl. unfold north_rhs. rewrite (nth_map_iota _ (0, 0) n l Hl). reflexivity. }
+  assert (G : forall l, In l fixed -> (l < n)%nat ->
+              nth l x (0, 0) = if Nat.eqb l p2 then third else if Nat.eqb l p1 then (1, 0) else (0, 0)).
+  { intros l Hl Hn. destruct (H l Hn) as [Hre Him]. rewrite !Hrow in Hre, Him by exact Hl. rewrite Hb in Hre, Him by exact Hn.
+    unfold vfun in Hre, Him. cbn [zero Rops] in Hre, Him.
+    assert (L : (l < length x)%nat) by lia.
+    rewrite (nth_indep _ 0 (fst (0, 0))) in Hre by (rewrite map_length; exact L). rewrite map_nth in Hre.
+    rewrite (nth_indep _ 0 (snd (0, 0))) in Him by (rewrite map_length; exact L). rewrite map_nth in Him.
+    apply injective_projections; assumption. }
+  inversion ND as [|? ? N0 ND1]; subst. inversion ND1 as [|? ? N1 ND2]; subst.
+  assert (p0 <> p1 /\ p0 <> p2 /\ p1 <> p2).
+  { split; [|split]; intros E; subst; [apply N0; left; reflexivity|apply N0; right; left; reflexivity|apply N1; left; reflexivity]. }
+  destruct H3 as (D01 & D02 & D12).
+  split; [|split].
+  - rewrite (G p0) by (unfold fixed; cbn; tauto || exact H0). apply Nat.eqb_neq in D02, D01. rewrite D02, D01. reflexivity.
+  - rewrite (G p1) by (unfold fixed; cbn; tauto || exact H1). apply Nat.eqb_neq in D12. rewrite D12, Nat.eqb_refl. reflexivity.
+  - rewrite (G p2) by (unfold fixed; cbn; tauto || exact H2). rewrite Nat.eqb_refl. reflexivity.
+Qed.
+
+From Coquelicot Require Import Complex.
+(* ---- Moebius correction: the returned map is a Moebius image of the input: unit vectors, cross-ratios kept *)
+Local Open Scope C_scope.
+Definition mob (a b c d z : C) : C := (a * z + b) / (c * z + d).
+Definition cross_ratio (z1 z2 z3 z4 : C) : C := ((z1 - z3) * (z2 - z4)) / ((z1 - z4) * (z2 - z3)).
+Lemma mob_diff a b c d z w : c * z + d <> RtoC 0 -> c * w + d <> RtoC 0 ->
+  mob a b c d z - mob a b c d w = (a * d - b * c) * (z - w) / ((c * z + d) * (c * w + d)).
+Proof. intros H1 H2. unfold mob. field. split; assumption. Qed.
+Lemma mobius_keeps_cross_ratio a b c d z1 z2 z3 z4 :
+  a * d - b * c <> RtoC 0 -> c * z1 + d <> RtoC 0 -> c * z2 + d <> RtoC 0 -> c * z3 + d <> RtoC 0 -> c * z4 + d <> RtoC 0 ->
+  z1 <> z4 -> z2 <> z3 ->
+  cross_ratio (mob a b c d z1) (mob a b c d z2) (mob a b c d z3) (mob a b c d z4) = cross_ratio z1 z2 z3 z4.
+Proof.
+  intros HD H1 H2 H3 H4 N14 N23. unfold cross_ratio.
+  rewrite !mob_diff by assumption. field.
+  repeat split; try assumption; apply Cminus_eq_contra; assumption.
+Qed.
+Local Close Scope C_scope.
+Open Scope R_scope.
+
+(* the model's complex operations are those of the complex field *)
+Lemma cmul_is_Cmult (a b : R * R) : cmul Rops a b = Cmult a b.
+Proof. reflexivity. Qed.
+Lemma cadd_is_Cplus (a b : R * R) : cadd Rops a b = Cplus a b.
+Proof. reflexivity. Qed.
+Lemma cdiv_is_Cdiv (a b : R * R) : b <> RtoC 0 -> cdiv Rops a b = Cdiv a b.
+Proof.
+  intros Hb. destruct a as [ar ai]. destruct b as [br bi].
+  assert (D : br * br + bi * bi <> 0).
+  { intros E. apply Hb. assert (br = 0 /\ bi = 0) by nra. destruct H as [-> ->]. reflexivity. }
+  unfold cdiv, Cdiv, Cmult, Cinv. cbn [fst snd add sub mul div Rops].
+  apply injective_projections; cbn [fst snd]; field; try exact D; intros E; apply D; rewrite <- E; ring.
+Qed.
+Lemma mobius1_is_mob ca cb cc cd z : Cplus (Cmult cc z) cd <> RtoC 0 -> mobius1 Rops ca cb cc cd z = mob ca cb cc cd z.
+Proof. intros H. unfold mobius1, mob. rewrite !cmul_is_Cmult, !cadd_is_Cplus. apply cdiv_is_Cdiv. exact H. Qed.
+
+Theorem mobius_result_unit ca cb cc cd mapping : Forall (fun p => dotR p p = 1) (mobius_result Rops ca cb cc cd mapping).
+Proof. unfold mobius_result. apply Forall_forall. intros p Hp. apply in_map_iff in Hp. destruct Hp as (u & <- & _). apply inverse_stereographic_on_sphere. Qed.
+
+(* four points of the input and their images: same cross-ratio in the stereographic plane *)
+Theorem mobius_result_cross_ratio ca cb cc cd (u1 u2 u3 u4 : V3) :
+  let st := stereographic1 Rops in
+  let im u := inverse_stereographic1 Rops (mobius1 Rops ca cb cc cd (st u)) in
+  Cminus (Cmult ca cd) (Cmult cb cc) <> RtoC 0 ->
+  Cplus (Cmult cc (st u1)) cd <> RtoC 0 -> Cplus (Cmult cc (st u2)) cd <> RtoC 0 ->
+  Cplus (Cmult cc (st u3)) cd <> RtoC 0 -> Cplus (Cmult cc (st u4)) cd <> RtoC 0 ->
+  st u1 <> st u4 -> st u2 <> st u3 ->
+  cross_ratio (st (im u1)) (st (im u2)) (st (im u3)) (st (im u4)) = cross_ratio (st u1) (st u2) (st u3) (st u4).
+Proof.
+  intros st im HD H1 H2 H3 H4 N14 N23. unfold im.
+  rewrite !stereographic_inverts_inverse. fold st.
+  rewrite !mobius1_is_mob by assumption. apply mobius_keeps_cross_ratio; assumption.
+Qed.
